@@ -159,7 +159,39 @@ def r_c03_evtx_window(s4, repo, scratch):
             'observed': '; '.join(bad) if bad else 'all bounds agree (%d records in total)' % len(all_ts), 'failed': bool(bad) or not all_ts}
 
 
+def r_c04_instants(s4, repo, scratch):
+    """lines in common notations with a four-digit year: the attributed instant is the written one, wherever the year sits in the line"""
+    shapes = [
+        "{Y}-{m}-{d} {H}:{M}:{S} msg", "[{Y}-{m}-{d} {H}:{M}:{S}] msg", "{Y}-{m}-{d}T{H}:{M}:{S}Z msg", "INFO {Y}-{m}-{d} {H}:{M}:{S} msg",
+        "ERROR: {Y}/{m}/{d} {H}:{M}:{S} msg", "host.example: {Y}-{m}-{d} {H}:{M}:{S} msg", "[ERROR] {Y}-{m}-{d}T{H}:{M}:{S} msg",
+        "abc def ghi {Y}-{m}-{d} {H}:{M}:{S} msg", "<6>abcdefghi jklmnopq {Y}-{m}-{d} {H}:{M}:{S} msg",
+    ]
+    bad = []
+    n = 0
+    first_inp = None
+    for si, sh in enumerate(shapes):
+        for (Y, m, d) in [(1970, '03', '04'), (1999, '09', '30'), (2000, '03', '03'), (2038, '06', '09'), (2099, '08', '07')]:
+            inp = os.path.join(scratch, 'c04_s%d_%d.log' % (si, Y))
+            want = []
+            with open(inp, 'w') as f:
+                for k, (H, M, S) in enumerate([('00', '00', '00'), ('03', '04', '05'), ('09', '40', '53')]):
+                    f.write(sh.format(Y=Y, m=m, d=d, H=H, M=M, S=S) + ' %d\n' % k)
+                    want.append('%d%s%sT%s%s%s' % (Y, m, d, H, M, S))
+            first_inp = first_inp or inp
+            rc, out, err = run_s4(s4, ['--color', 'never', '-u', '-d', '%Y%m%dT%H%M%S', '--tz-offset', '+00:00', inp])
+            got = [l.split(b':', 1)[0].decode('ascii', 'replace') for l in out.split(b'\n') if l]
+            n += 1
+            if got != want:
+                bad.append((inp, want, got))
+    return {'name': 'C04.instants_with_year4', 'input': bad[0][0] if bad else first_inp,
+            'how_made': '%d generated files, 9 line shapes x 5 years, three lines each' % n,
+            'cmd': '%s --color never -u -d %%Y%%m%%dT%%H%%M%%S --tz-offset +00:00 <file>' % s4,
+            'expected': 'the field before the first ":" of every line is the instant written in the line',
+            'observed': 'all as written' if not bad else 'file %s: expected %s, printed %s' % bad[0], 'failed': bool(bad)}
+
+
 RECIPES = {
+    'C04': [r_c04_instants],
     'C10': [r_c03_evtx_window],
     'C01': [r_c01_tie_order, r_c01_chronological],
     'C06': [r_c01_tie_order, r_c01_chronological],
